@@ -16,7 +16,7 @@ def main(tier, seed, replay=None):
     fams = ["shared", "exp2c", "gaussc", "cosmix", "exp3", "rat2", "poly", "exp1l"]
     for i in range(n):
         fam = fams[i % len(fams)]
-        c = gen_problem(rng, family=fam, quant=(8 if i % 8 else None), S=(rng.randint(1, 6) if i % 2 else None),
+        c = gen_problem(rng, family=fam, quant=(8 if i % 8 else None), S=(rng.randint(1, 6 if i % 8 else 3) if i % 2 else None),
                         scalar=("f32" if i % 5 == 4 else "f64"))
         if i % 4 == 1:
             scale_up_for_eps(rng, c)    # a large absolute threshold below every singular value: the projector must stay the full one
